@@ -65,7 +65,7 @@ type modSpec struct{ path, goVersion string }
 
 var modules = []modSpec{
 	{"x.io/test", "1.24"}, {"x.io/test", "1.18"}, {"x.io/test", "1.21"}, {"x.io/test", "1.22.0"}, {"x.io/test", "1.24.2"},
-	{"github.com/a/b", "1.24"}, {"example.com/m/v2", "1.23"},
+	{"github.com/a/b", "1.24"}, {"example.com/m/v2", "1.23"}, {"x.io/old", "1.12"},
 }
 
 type Item struct {
